@@ -393,8 +393,11 @@ class Gen:
             ik = t.weighted([5, 2, 2, 2], "cop.ids")
             if ik == 1 and abs(reps) > 0:
                 opts["repetition_ids"] = [t.pick(("r", "x", "0"), "cop.id") + str(j) for j in range(abs(reps))]
-                if t.chance(1, 3, "cop.use_ids_explicit"):
-                    opts["use_repetition_ids"] = True
+                # explicit ids with the flag left out, set, or cleared (the constructor then keeps ids it
+                # does not use, and equality compares them)
+                flag = t.weighted([3, 2, 2], "cop.use_ids_explicit")
+                if flag:
+                    opts["use_repetition_ids"] = (flag == 1)
             elif ik == 2:
                 opts["use_repetition_ids"] = True
             elif ik == 3:
